@@ -3,7 +3,9 @@
 set -e
 cd "$(dirname "$0")"
 export CARGO_NET_OFFLINE=true
-( cd coq && coq_makefile -f _CoqProject -o Makefile > /dev/null && timeout 3000 make -j16 > ../work/coq-build.log 2>&1 || { tail -50 ../work/coq-build.log; exit 1; } )
-sh driver/build.sh
+mkdir -p work
+python3 -c "import sys; sys.path.insert(0,'lib'); import vlib; vlib.gen_coqproject()"
+( cd coq && timeout 3000 make -j16 > ../work/coq-build.log 2>&1 || { tail -50 ../work/coq-build.log; exit 1; } )
+for e in coq/Extract_*.v; do n=$(basename "$e" .v); sh driver/build.sh "${n#Extract_}"; done
 ( cd harness && CARGO_TARGET_DIR=../target/default cargo build --release --offline 2>&1 | tail -3 )
 echo setup done
